@@ -173,7 +173,7 @@ class Env(object):
                         kw['primaryjoin'] = r['primaryjoin']
                         kw['secondaryjoin'] = r['secondaryjoin']
                 if r.get('backref'):
-                    kw['backref'] = r['backref']
+                    kw['backref'] = sa.orm.backref(r['backref'], **r['backref_kw']) if r.get('backref_kw') else r['backref']
                 if r.get('uselist') is not None:
                     kw['uselist'] = r['uselist']
                 if r.get('lazy'):
